@@ -20,23 +20,17 @@ import SageModel.Model.C09
 * `groupPeptides`  — the `flat_map_iter` closure of `Parameters::digest`;
 * `reorder`        — `Parameters::reorder_peptides`: sort, `dedup_by` (merging proteins, AND-ing the decoy
                      flags), then per entry `proteins.sort_unstable(); proteins.dedup()`;
-* `cmpActual`      — the comparator the code really uses (`total_cmp` on the mass, then `initial_sort`, whose last
-                     clause compares `self.cterm` with `other.NTERM`), and `cmpKey`, the lexicographic order on the
-                     full key (mass, sequence, modifications, nterm, cterm).
+* `cmpKey`         — `Peptide::initial_sort`: lexicographic order on the identity (sequence, modifications, nterm,
+                     cterm) of a form; `cmpMassKey`: mass first, then identity.
 
-Sorts. Both sorts of the code are *unstable* (`sort_unstable_by`, rayon `par_sort_unstable_by`), i.e. the
-order they leave among elements their comparator does not separate is unspecified. The model fixes one:
-* digests: stable merge sort by (position, decoy, sequence, semi_enzymatic, missed_cleavages) and then the
-  protein name (digests equal on the code's key differ in nothing but the protein name; the only consumer of
-  their order is the group's protein list, which `reorder_peptides` sorts again; `digest_sort_irrelevant` in
-  `Props/C08Sources.lean` proves that ANY arrangement sorted by the code's comparator gives the same database);
-* peptides: stable merge sort by the full key `cmpKey` (**assumption A-sort**, see `Props/C08.lean`:
-  `comparator_off_duplicates` shows `cmpActual = cmpKey` on peptides with different keys; on key-equal
-  duplicates `cmpActual` is not even asymmetric, so what rayon's quicksort does with them is outside any
-  contract; the assumption is that it returns the classes contiguous and in order). Which member of a class of
-  key-equal duplicates ends up first is NOT predicted by the model, and does not matter: the merge combines
-  every per-occurrence field by AND / min / sorted union (`reorder_sort_irrelevant` in `Props/C08.lean`: any
-  key-sorted arrangement of the vector gives the same database).
+Sorts. All sorts of the code are *unstable* (`sort_unstable_by`, rayon `par_sort_unstable_by`), i.e. the
+order they leave among elements their comparator does not separate is unspecified. The model uses stable merge
+sorts; `digest_sort_irrelevant` (`Props/C08Sources.lean`) and `reorder_sort_irrelevant` (`Props/C08.lean`) prove
+that ANY arrangement sorted by the code's comparators gives the same database:
+* digests: by (position, decoy, sequence, semi_enzymatic, missed_cleavages), ties in the model by protein name;
+* peptides: first by identity `cmpKey` (elements equal under it are merged: proteins united, flags AND-ed,
+  missed cleavages / position / mass minimised — every merged field is order-free), then the unique forms by
+  `cmpMassKey`, a total order on them.
 
 Numbers are generic (`Float32` in the driver, `Rat`/linear orders in the theorems). NaN and `-0.0` are not
 modelled (`total_cmp`, `partial_cmp().unwrap_or(Equal)` and `==` are all read as the one order `<`).
@@ -229,32 +223,37 @@ end generic
 section order
 variable {α : Type} [LT α] [DecidableLT α]
 
-/-- lexicographic order on the full key (mass, sequence, modifications, nterm, cterm) -/
+/-- `Peptide::initial_sort` (repaired: its last clause compares `cterm` with `cterm`): the lexicographic order on
+    the IDENTITY of a peptide form — sequence, modifications, nterm, cterm. The mass is not part of it. -/
 def cmpKey (a b : DbPep α) : Ordering :=
-  (cmpOf a.core.mono b.core.mono).then <| (lexList cmpNat a.core.sequence b.core.sequence).then <|
+  (lexList cmpNat a.core.sequence b.core.sequence).then <|
   (lexList cmpOf a.core.mods b.core.mods).then <| (cmpOpt cmpOf a.core.nterm b.core.nterm).then
   (cmpOpt cmpOf a.core.cterm b.core.cterm)
 
-/-- the comparator of the code: the last clause of `initial_sort` reads `self.cterm.partial_cmp(&other.nterm)` -/
-def cmpActual (a b : DbPep α) : Ordering :=
-  (cmpOf a.core.mono b.core.mono).then <| (lexList cmpNat a.core.sequence b.core.sequence).then <|
-  (lexList cmpOf a.core.mods b.core.mods).then <| (cmpOpt cmpOf a.core.nterm b.core.nterm).then
-  (cmpOpt cmpOf a.core.cterm b.core.nterm)
+/-- the comparator of the SECOND sort: `monoisotopic.total_cmp().then_with(initial_sort)` -/
+def cmpMassKey (a b : DbPep α) : Ordering := (cmpOf a.core.mono b.core.mono).then (cmpKey a b)
 
 def keyLe (a b : DbPep α) : Bool := cmpKey a b != .gt
 
-/-- the test of `dedup_by`: mass, sequence, modifications, nterm, cterm all `==` -/
+def massKeyLe (a b : DbPep α) : Bool := cmpMassKey a b != .gt
+
+/-- the test of `dedup_by`: sequence, modifications, nterm, cterm all `==` (no mass: forms merged from different
+    builds may carry masses that differ in the last bit of the f32 sum) -/
 def keyEq (a b : DbPep α) : Bool := cmpKey a b == .eq
 
+/-- `f32::min` on NaN-free numbers -/
+def minOf (a b : α) : α := if b < a then b else a
+
 /-- the body of `dedup_by` when the test succeeds: proteins appended, `decoy` and `semi_enzymatic` AND-ed,
-    `missed_cleavages` and `position` (derived `Ord`: Nterm < Cterm < Full < Internal) minimised, so that the
-    entry does not depend on which of the duplicates the unstable sort put first -/
+    `missed_cleavages`, `position` (derived `Ord`: Nterm < Cterm < Full < Internal) and `monoisotopic` minimised,
+    so that the entry does not depend on which of the duplicates the unstable sort put first -/
 def merge (keep remove : DbPep α) : DbPep α :=
   { keep with proteins := keep.proteins ++ remove.proteins
               decoy := keep.decoy && remove.decoy
               semi := keep.semi && remove.semi
               mc := min keep.mc remove.mc
-              core := { keep.core with position := posMin keep.core.position remove.core.position } }
+              core := { keep.core with position := posMin keep.core.position remove.core.position
+                                       mono := minOf keep.core.mono remove.core.mono } }
 
 /-- `Vec::dedup_by`: every element is compared with the last RETAINED one -/
 def dedupGo : DbPep α → List (DbPep α) → List (DbPep α)
@@ -268,8 +267,11 @@ def dedupBy : List (DbPep α) → List (DbPep α)
 /-- `peptide.proteins.sort_unstable(); peptide.proteins.dedup()` -/
 def finishProteins (p : DbPep α) : DbPep α := { p with proteins := dedupAdj (sortStr p.proteins) }
 
-/-- `Parameters::reorder_peptides` (sort modelled under assumption A-sort) -/
-def reorder (l : List (DbPep α)) : List (DbPep α) := (dedupBy (l.mergeSort keyLe)).map finishProteins
+/-- `Parameters::reorder_peptides`: sort by identity, merge equal identities, sort by (mass, identity), clean the
+    protein lists. (Both sorts are unstable in the code; `reorder_sort_irrelevant`: any arrangement they may
+    return gives this result.) -/
+def reorder (l : List (DbPep α)) : List (DbPep α) :=
+  ((dedupBy (l.mergeSort keyLe)).mergeSort massKeyLe).map finishProteins
 
 end order
 
@@ -405,8 +407,9 @@ arbitrary order (the code collects from a `HashSet`) → `Parameters::reorder_pe
 The model concatenates in chunk order (`reorder_perm` in `Props/C08Chunk.lean`: the order is irrelevant).
 What differs from the unchunked build, as coded: the target set that removes decoys is PER CHUNK, so a generated
 (or tagged) decoy whose sequence is a target of ANOTHER chunk survives its chunk and meets that target only in
-the final `reorder_peptides`, where equal (mass, sequence, modifications, termini) are merged into a target that
-lists both proteins. Forms that differ in anything of that key — in particular in the f32 mass — are not merged. -/
+the final `reorder_peptides`, where equal (sequence, modifications, termini) are merged into a target that lists
+both proteins and carries the smaller of the two f32 masses (a generated decoy inherits the sum of its target's
+residue order, the mirror-image target sums in its own order: the two may differ in the last bit). -/
 
 section chunked
 variable {α : Type} [Add α] [OfNat α 0] [BEq α] [LE α] [DecidableLE α] [LT α] [DecidableLT α]
@@ -449,19 +452,6 @@ end chunked
 
 section form
 variable {α : Type} [LT α] [DecidableLT α]
-
-/-- sequence and modifications (residues and both termini) — the key of the property text, without the mass -/
-def cmpForm (a b : DbPep α) : Ordering :=
-  (lexList cmpNat a.core.sequence b.core.sequence).then <|
-  (lexList cmpOf a.core.mods b.core.mods).then <| (cmpOpt cmpOf a.core.nterm b.core.nterm).then
-  (cmpOpt cmpOf a.core.cterm b.core.cterm)
-
-def formEq (a b : DbPep α) : Bool := cmpForm a b == .eq
-
-/-- no two entries with the same sequence and modifications -/
-def clNoDupForm : List (DbPep α) → Bool
-  | [] => true
-  | a :: rest => rest.all (fun b => !formEq a b) && clNoDupForm rest
 
 /-- no decoy entry has the residue sequence of a target entry -/
 def clDecoyNotTargetSeq (out : List (DbPep α)) : Bool :=
